@@ -1,0 +1,32 @@
+//go:build verif
+// +build verif
+
+package scrape
+
+// Machine-checked contracts (read by /verif/engine, see /verif/DESIGN.md).
+// This file contains comments only and is excluded from every normal build by the tag "verif".
+
+/*@
+// ---------- C12: the tee reader hands every attached writer exactly the bytes the source produced ----------
+// writer x has received, since the call started, exactly p[0:k]
+pred teed(x, p, k) = gOutLen[payload(x)] == old(gOutLen[payload(x)]) + k
+    && (forall i in 0..gOutLen[payload(x)] :: gOutData[payload(x)][i] ==
+          ite(i < old(gOutLen[payload(x)]), old(gOutData[payload(x)][i]), p[i - old(gOutLen[payload(x)])]))
+pred untouchedWriter(x) = gOutLen[payload(x)] == old(gOutLen[payload(x)]) && gOutData[payload(x)] == old(gOutData[payload(x)])
+
+pred distinctWriters(ws) = (forall x in ws :: x != nil) && (forall a in 0..len(ws) :: forall b in 0..len(ws) :: a != b ==> payload(ws[a]) != payload(ws[b]))
+
+contract wrappedReader.Read
+  requires self != nil && self.reader != nil && distinctWriters(self.writer)
+  ensures[C12] @count_in_range 0 <= n && n <= len(p)
+  ensures[C12] @every_writer_gets_exactly_the_bytes_read (forall j in 0..len(self.writer) :: teed(self.writer[j], p, n))
+        || (err != nil && exists j in 0..len(self.writer) :: (forall a in 0..j :: teed(self.writer[a], p, n)))
+  modifies elemsof(p), gOutLen, gOutData
+  loop 1 invariant 0 <= n && n <= len(p)
+  loop 1 invariant[C12] forall j in 0..idx1 :: teed(self.writer[j], p, n)
+  loop 1 invariant[C12] forall j in idx1..len(self.writer) :: untouchedWriter(self.writer[j])
+  loop 2 invariant 0 <= n && n <= len(p) && 0 <= wTotal
+  loop 2 invariant[C12] forall j in 0..idx1 :: teed(self.writer[j], p, n)
+  loop 2 invariant[C12] teed(self.writer[idx1], p, wTotal) && wTotal <= n
+  loop 2 invariant[C12] forall j in idx1 + 1..len(self.writer) :: untouchedWriter(self.writer[j])
+@*/
